@@ -29,6 +29,7 @@ import (
 	"pgregory.net/rapid"
 
 	"verif/lib/benchcase"
+	"verif/lib/benchgen"
 	"verif/lib/stats"
 )
 
@@ -239,15 +240,14 @@ func describe(c Case) string {
 
 // RunCase runs one case in a worker and judges it.
 func RunCase(c Case) (res stats.Result) {
-	w, ok := registry[c.Workload]
-	if !ok {
+	if !benchgen.Known(c.Workload) {
 		panic("harness: unknown workload " + c.Workload)
 	}
 	if why := admissible(c); why != "" {
 		// a replay/regress file edited by hand, or a generator bug: never a finding
 		panic("harness: case outside the documented domain: " + why + ": " + describe(c))
 	}
-	res.Labels, res.NonTrivial = classify(w, c)
+	res.Labels, res.NonTrivial = benchgen.Classify(c)
 	o := runWorker(c)
 	if o.harness != "" {
 		panic("harness: " + o.harness)
